@@ -395,7 +395,7 @@ def run(ctx):
                     sig = "wire:%s:%s" % (path, fld)
                     skip.add((n, path))
                     n_viol[sig] += 1
-                    if n_viol[sig] <= 2:
+                    if n_viol[sig] <= 2 and sum(1 for f in ctx.findings if f.kind == "violation") < 8:
                         ctx.violation(sig, "%s differs after the %s path" % (fld, path),
                                       {"path": path, "field": fld, "configuration": c, "local": {k: v for k, v in ref.items() if k != "sup"} if not fld.startswith("sup") else ref["sup"],
                                        "received": {k: v for k, v in got.items() if k != "sup"} if not fld.startswith("sup") else got["sup"]})
